@@ -7,3 +7,21 @@ package vip
 //@ ghost func vipPushStartedFor(tx string, user string) bool
 //@ func (*Client).StartUserVIPPush
 //@   assume err == nil ==> vipPushStartedFor(transactionID, userID)
+
+// ---- C05: the verdicts handed to keymasterd say "proved" only when the service's own answer does ----------------
+// (the parsed SOAP answer is whatever the service sent; the clauses pin down which answers count as proof)
+//@ ghost var ghostVipAnswer any
+//@ func (*Client).VipPushHasBeenApproved
+//@   atcall encoding/xml.Unmarshal sets ghostVipAnswer any (data []byte, v any, err2 error) :: v
+//@   ensures ret0 ==> ret1 == nil && isType[*pollPushResponseBody](ghostVipAnswer) && asType[*pollPushResponseBody](ghostVipAnswer).Body.VipResponsePollPushStatus.Status == "0000" && len(asType[*pollPushResponseBody](ghostVipAnswer).Body.VipResponsePollPushStatus.TransactionStatus) >= 1 && asType[*pollPushResponseBody](ghostVipAnswer).Body.VipResponsePollPushStatus.TransactionStatus[0].Status == "7000"   #C05.vip-push-approved-only-when-the-service-says-approved @C05
+//@ func (*Client).VerifySingleToken
+//@   atcall encoding/xml.Unmarshal sets ghostVipAnswer any (data []byte, v any, err2 error) :: v
+//@   ensures ret0 ==> ret1 == nil && isType[*authenticateCredentialsResponseBody](ghostVipAnswer) && asType[*authenticateCredentialsResponseBody](ghostVipAnswer).Body.AuthenticateCredentialsResponse.Status == "0000"   #C05.vip-code-accepted-only-when-the-service-says-success @C05
+// a user's code is accepted only if the service accepted that very code for one of that user's active tokens
+//@ ghost var ghostVipTokenOK bool
+//@ func (*Client).ValidateUserOTP
+//@   atcall (*Client).GetActiveTokens requires (c *Client, u string) :: u == userID   #C05.vip-tokens-of-the-named-user @C05
+//@   atcall (*Client).GetActiveTokens sets ghostVipTokenOK bool (c *Client, u string, toks []string, err2 error) :: false
+//@   atcall (*Client).VerifySingleToken sets ghostVipTokenOK bool (c *Client, tokenID string, tokenValue int, ok bool, err2 error) :: true if ok && err2 == nil && tokenValue == OTPValue
+//@   loop 1 () invariant !ghostVipTokenOK   #C05.vip-code-loop @C05
+//@   ensures ret0 ==> ret1 == nil && ghostVipTokenOK   #C05.vip-code-accepted-only-after-a-token-accepted-it @C05
